@@ -17,3 +17,28 @@ func VerifNewOperatorPartition(own partitioning.KeyGroupRange, neighborRanges []
 	}
 	return newOperatorPartition(own, ns)
 }
+
+// VerifDump renders the per-key-group cache state of a timer store.
+func (s *TimerStore) VerifDump() string {
+	out := ""
+	for i := 0; ; i++ {
+		p, ok := s.verifPartition(i)
+		if !ok {
+			break
+		}
+		out += p.cache.VerifDump()
+		if p.allDataInCache {
+			out += "A"
+		}
+		out += "|"
+	}
+	return out
+}
+
+func (s *TimerStore) verifPartition(i int) (*KeyGroupPriorityQueue, bool) {
+	ps := s.priorityQueue.VerifPartitions()
+	if i >= len(ps) {
+		return nil, false
+	}
+	return ps[i].(*KeyGroupPriorityQueue), true
+}
